@@ -33,6 +33,9 @@ type HopScript struct {
 	Payload     []byte // proto bytes (pdata marshaler) of the payload
 	Transport   string // grpc | http-proto | http-json
 	Compression string
+	Level       int    // compression_params.level of the HTTP exporter (0 = not set)
+	BulkItems   int    // > 0: an id-tagged resource with this many items ...
+	BulkBytes   int    // ... of this many bytes each travels in front of Payload (bodies of 100 kB - 3 MB)
 	Auth        bool   // receiver with the authenticator extension
 	Cred        string // good | bad | none (only meaningful with Auth)
 	Outcome     Outcome
@@ -158,6 +161,11 @@ func genHop(t *rapid.T) HopScript {
 		Transport: rapid.SampledFrom(transports).Draw(t, "transport"),
 	}
 	s.Compression = rapid.SampledFrom(compressionsOf(s.Transport)).Draw(t, "compression")
+	s.Level = rapid.SampledFrom(levelsOf(s.Transport, s.Compression)).Draw(t, "level")
+	if rapid.IntRange(0, 29).Draw(t, "bulk") == 0 {
+		s.BulkItems = rapid.IntRange(300, 1500).Draw(t, "bulk_items")
+		s.BulkBytes = rapid.IntRange(300, 2000).Draw(t, "bulk_bytes")
+	}
 	s.Auth = rapid.Bool().Draw(t, "auth")
 	s.Cred = "none"
 	if s.Auth {
@@ -326,7 +334,7 @@ func project(tree any, typ, field string) []any {
 func isHTTP(transport string) bool { return transport != trGRPC }
 
 func runHop(s HopScript) (nontrivial bool, key string, f *vt.Finding) {
-	key = scriptKey(s.Signal, s.Transport, s.Compression, s.Auth, s.Cred, s.Outcome, s.Payload)
+	key = scriptKey(s.Signal, s.Transport, s.Compression, s.Level, s.BulkItems, s.BulkBytes, s.Auth, s.Cred, s.Outcome, s.Payload)
 	cHop.HangGuard(180*time.Second, s, "hang/hop", func() {
 		nontrivial, f = runHopInner(cHop, &s)
 	})
@@ -334,14 +342,22 @@ func runHop(s HopScript) (nontrivial bool, key string, f *vt.Finding) {
 }
 
 func runHopInner(c *vt.C, s *HopScript) (bool, *vt.Finding) {
-	v0, err := sig.Decode(s.Signal, s.Payload)
+	payload := s.Payload
+	if s.BulkItems > 0 {
+		bv, berr := buildBurstPayload(s.Signal, 7, s.BulkItems, s.BulkBytes, s.Payload)
+		if berr != nil {
+			return false, vt.Failf("harness/payload", "script payload does not decode: %v", berr)
+		}
+		payload = sig.Encode(bv)
+	}
+	v0, err := sig.Decode(s.Signal, payload)
 	if err != nil {
 		return false, vt.Failf("harness/payload", "script payload does not decode: %v", err)
 	}
 	sent := pview.Of(v0)
 	items := sig.Count(v0)
 	fresh := func() any {
-		v, _ := sig.Decode(s.Signal, s.Payload)
+		v, _ := sig.Decode(s.Signal, payload)
 		return v
 	}
 	r := E.rcv(s.Auth)
@@ -350,9 +366,9 @@ func runHopInner(c *vt.C, s *HopScript) (bool, *vt.Finding) {
 		cred = s.Cred
 	}
 	authorised := !s.Auth || cred == "good"
-	send, err := E.exporter(expKey{transport: s.Transport, compression: s.Compression, auth: s.Auth, cred: cred, signal: s.Signal})
+	send, err := E.exporter(expKey{transport: s.Transport, compression: s.Compression, level: s.Level, auth: s.Auth, cred: cred, signal: s.Signal})
 	if err != nil {
-		return false, vt.Failf("harness/exporter", "cannot create exporter %s/%s: %v", s.Transport, s.Compression, err)
+		return false, vt.Failf("harness/exporter", "cannot create exporter %s/%s level %d: %v", s.Transport, s.Compression, s.Level, err)
 	}
 	o := s.Outcome
 	tk := "grpc"
@@ -366,11 +382,20 @@ func runHopInner(c *vt.C, s *HopScript) (bool, *vt.Finding) {
 	calls, trees := r.sink.snapshot()
 
 	labels := []string{"signal:" + s.Signal, "transport:" + s.Transport, "compression:" + s.Transport + "/" + orNone(s.Compression)}
+	if s.Level != 0 {
+		labels = append(labels, fmt.Sprintf("level:%s/%d", s.Compression, s.Level))
+	}
+	if len(payload) > 128<<10 {
+		labels = append(labels, "body>128KiB", "body>128KiB:"+s.Transport+"/"+orNone(s.Compression))
+		if len(payload) > 1<<20 {
+			labels = append(labels, "body>1MiB")
+		}
+	}
 	switch {
 	case !authorised:
 		labels = append(labels, "unauthenticated:"+cred+"/"+tk)
 	case items == 0:
-		if len(s.Payload) == 0 {
+		if len(payload) == 0 {
 			labels = append(labels, "no-items:empty-request")
 		} else {
 			labels = append(labels, "no-items:containers-only")
@@ -485,7 +510,7 @@ func runHopInner(c *vt.C, s *HopScript) (bool, *vt.Finding) {
 		}
 	default:
 		if calls != 1 {
-			return true, vt.Failf("consumer-calls/"+tk, "%s %s: one export produced %d consumer calls", s.Signal, s.Transport, calls)
+			return true, vt.Failf("consumer-calls/"+tk, "%s %s/%s level %d (%d bytes): one export produced %d consumer calls (exporter returned %v)", s.Signal, s.Transport, orNone(s.Compression), s.Level, len(payload), calls, sendErr)
 		}
 		if f := comparePayload(c, s, "exporter leg", s.Signal, s.Transport, sent, trees[0]); f != nil {
 			return true, f
